@@ -470,3 +470,79 @@ Definition encode_new (e : enum_decl) (r : new_result) : N * N :=
   end.
 Definition live_name (e : enum_decl) (name : string) : bool :=
   existsb (fun v => String.eqb (v_name v) name && v_live v) (en_variants e).
+
+(** ** soundness of the per-enum obligation: the translated real match computes the model's conversion *)
+
+Lemma list_eqb_eq {A} (eqb : A -> A -> bool) :
+  (forall a b, eqb a b = true -> a = b) -> forall l l', list_eqb eqb l l' = true -> l = l'.
+Proof.
+  intros H. induction l as [|a l IH]; destruct l' as [|b l']; cbn [list_eqb]; intros E; try discriminate; [reflexivity|].
+  apply andb_prop in E. destruct E as [E1 E2]. f_equal; [now apply H|now apply IH].
+Qed.
+
+Lemma arm_eqb_eq a b : arm_eqb a b = true -> a = b.
+Proof.
+  destruct a as [[[n s] o] c], b as [[[n' s'] o'] c']. cbn [arm_eqb]. intros H.
+  apply andb_prop in H. destruct H as [H Hc]. apply andb_prop in H. destruct H as [H Ho].
+  apply andb_prop in H. destruct H as [Hn Hs].
+  apply N.eqb_eq in Hn. apply String.eqb_eq in Hs. apply Bool.eqb_prop in Ho. apply Bool.eqb_prop in Hc.
+  now subst.
+Qed.
+
+Lemma live_name_unique e v :
+  NoDup (map v_name (en_variants e)) -> In v (en_variants e) -> live_name e (v_name v) = v_live v.
+Proof.
+  unfold live_name. induction (en_variants e) as [|w vs IH]; intros ND Hin; [destruct Hin|].
+  cbn [map existsb] in *. apply NoDup_cons_iff in ND. destruct ND as [Hn ND].
+  destruct Hin as [->|Hin].
+  - rewrite String.eqb_refl. cbn [andb]. destruct (v_live v); [reflexivity|]. cbn [orb].
+    (* no other variant carries this name *)
+    clear IH. induction vs as [|u vs IHv]; [reflexivity|]. cbn [existsb map] in *.
+    destruct (String.eqb_spec (v_name u) (v_name v)) as [E|_].
+    + exfalso. apply Hn. left. exact E.
+    + cbn [andb orb]. apply IHv; [intros H; apply Hn; now right|]. now inversion ND.
+  - destruct (String.eqb_spec (v_name w) (v_name v)) as [E|_].
+    + exfalso. apply Hn. rewrite E. now apply in_map.
+    + cbn [andb orb]. now apply IH.
+Qed.
+
+Lemma arms_match_expected e : NoDup (map v_name (en_variants e)) ->
+  forall x, arms_match (expected_arms e) (live_name e) x = first_match (live e) x.
+Proof.
+  intros ND x. unfold expected_arms, live.
+  assert (H : forall vs, (forall v, In v vs -> live_name e (v_name v) = v_live v) ->
+            arms_match (flat_map (fun v => match v_discr v with
+                                             | DLitN n => [(n, v_name v, exh_matches (exh_of e) false, v_cfg v)]
+                                             | _ => []
+                                             end) vs) (live_name e) x
+            = first_match (filter v_live vs) x).
+  { induction vs as [|v vs IH]; intros Hl; [reflexivity|]. cbn [flat_map filter].
+    assert (IH' := IH (fun u Hu => Hl u (or_intror Hu))). specialize (Hl v (or_introl eq_refl)).
+    destruct (v_discr v) as [n| |] eqn:Ed; cbn [app arms_match].
+    - rewrite Hl. destruct (v_live v); cbn [andb first_match].
+      + rewrite Ed. destruct (n =? x); [reflexivity|exact IH'].
+      + exact IH'.
+    - destruct (v_live v); cbn [first_match]; [rewrite Ed|]; exact IH'.
+    - destruct (v_live v); cbn [first_match]; [rewrite Ed|]; exact IH'. }
+  apply H. intros v Hv. now apply live_name_unique.
+Qed.
+
+(** when the obligation [enum:new_with_raw_value] of [check_enum] holds for the translated real expansion [p],
+    the real match — first arm whose cfg is live and whose literal equals the value, else the default arm —
+    computes exactly [enum_new e] for EVERY raw value *)
+Theorem check_enum_new_sound e p :
+  NoDup (map v_name (en_variants e)) ->
+  list_eqb arm_eqb (ep_arms p) (expected_arms e) = true ->
+  (match ep_default p with
+   | DefErr => exh_matches (exh_of e) false
+   | DefUnreachable => negb (exh_matches (exh_of e) false)
+   | DefOther => false
+   end) = true ->
+  forall x, ep_new p (live_name e) x = enum_new e x.
+Proof.
+  intros ND Ha Hd x. apply (list_eqb_eq _ arm_eqb_eq) in Ha. unfold ep_new, enum_new.
+  rewrite Ha, (arms_match_expected e ND). destruct (first_match (live e) x); [reflexivity|].
+  destruct (ep_default p); destruct (exh_matches (exh_of e) false); try discriminate; reflexivity.
+Qed.
+
+Print Assumptions check_enum_new_sound.
